@@ -326,3 +326,33 @@ Proof.
   induction bk as [|[lo hi] bk IH]; [reflexivity|].
   cbn [inst_rows_of map d_lo d_hi d_val fst snd]. rewrite IH. reflexivity.
 Qed.
+
+(* ------------------------------------------------------------------------------------------------ *)
+(* 7. the zero rule of _set_data                                                                     *)
+(* ------------------------------------------------------------------------------------------------ *)
+
+(* temperature cells are never altered by the zero rule, whatever the fuel ... *)
+Lemma zero_rule_keeps_temperature_l : forall elec fr, temps_of (set_data elec fr) = temps_of fr.
+Proof.
+  intros [|] fr; [|reflexivity]. unfold set_data, temps_of. rewrite map_map. apply map_ext. intros r. reflexivity.
+Qed.
+
+(* ... so the temperature side of the classes does not depend on the fuel *)
+Lemma class_hourly_fuel_l : forall elec billing tol midx fr,
+  class_hourly elec billing tol midx fr = hourly_path billing tol midx (temps_of fr).
+Proof. intros. unfold class_hourly. rewrite zero_rule_keeps_temperature_l. reflexivity. Qed.
+
+Lemma class_subhourly_fuel_l : forall elec scale exact fr bs,
+  class_subhourly elec scale exact fr bs = subhourly_path scale exact (temps_of fr) bs.
+Proof. intros. unfold class_subhourly. rewrite zero_rule_keeps_temperature_l. reflexivity. Qed.
+
+(* the usage column: untouched for gas (a usage of exactly 0 stays 0), zero -> NaN for electricity - the rule of
+   Model/Resample.v's zero_to_nan, and nothing else *)
+Lemma zero_rule_usage_l : forall elec fr, usage_of (set_data elec fr) = zero_to_nan elec (usage_of fr).
+Proof.
+  intros [|] fr; [|reflexivity]. unfold set_data, usage_of, zero_to_nan. rewrite !map_map. apply map_ext.
+  intros r. unfold zero_cell, f_obs, f_stamp, stamp, rval. cbn [fst snd]. destruct (snd (fst r)); reflexivity.
+Qed.
+
+Lemma zero_rule_keeps_stamps_l : forall elec fr, map f_stamp (set_data elec fr) = map f_stamp fr.
+Proof. intros [|] fr; [|reflexivity]. unfold set_data. rewrite map_map. apply map_ext. intros r. reflexivity. Qed.
